@@ -298,6 +298,40 @@ def main():
                 if keep != (('x' + tname) in ob['new']):
                     V.violation(f'keep-rule:named:{preset}:{tname}:grid{gi}', f'column x{tname} was {"emitted" if not keep else "dropped"}; the named formula on {grid} gives {sorted(set(texts.tolist()))[:6]} ({len(u_)} distinct, majority {share:.2f}, NaN {nanp:.2f}) -> {"emit" if keep else "drop"}', {'values': grid, 'preset': preset})
             V.count(evaluations=len(ob['new']) * len(grid), nontrivial=len(ob['new']), traces=len(ob['new']))
+    # ---- (5) the batch path over several mini-batches of one run (one process): which transformed columns a batch gets is
+    # decided on THAT batch alone - a transformer that is degenerate on an earlier batch is still emitted on a later one
+    import numpy as _np2
+    seqs = [[['3', '1', '2', '7', '5', '9', '4', '8', '6', '2', '11', '13'], ['0', '0', '0', '0', '5', '1', '2', '3', '4', '6'], ['1', '2', '3', '4', '5', '6', '7', '8', '9', '10']],
+            [['1', '1', '1', '1', '1', '1', '1', '1'], ['1', '2', '3', '4', '5', '6', '7', '0', '0', '0', '9', '12']]]
+    for si, seq in enumerate(seqs):
+        for preset in ('default', 'minimal'):
+            its = [{'columns': ['x', 'other', 'label'], 'rows': [[v_, 'k' + str(i_ % 3), str(i_ % 2)] for i_, v_ in enumerate(vals_)], 'numeric': ['x'], 'keep_state': bi_ > 0,
+                    'args': {'heuristic': 'MI-numba-randomized', 'label_column': 'label', 'transformers': preset, 'combination_number_upper_bound': 10 ** 6}} for bi_, vals_ in enumerate(seq)]
+            r_ = PC.pipe_eval([{'op': 'batch_features', 'items': its}], modules=['pipe_ops'])[0]
+            if not r_ or 'ok' not in r_:
+                V.violation(f'raises:batch-sequence:{preset}', f'compute_batch_ranking failed: {PC.failure_text(r_)}', {'batches': seq})
+                continue
+            for bi_, (vals_, ob_) in enumerate(zip(seq, r_['ok']), start=1):
+                key = f'batch-sequence{si}:{preset}:batch={bi_} of {len(seq)} x={vals_}'
+                if 'error' in ob_:
+                    V.violation('raises:' + key, ob_['error'], {'batches': seq})
+                    continue
+                xs_ = [parse_num(s_) for s_ in vals_]
+                ctx_ = {'max': max(xs_)}
+                for tname in vault[preset]:
+                    if tname not in NAMED:
+                        continue
+                    f_ = _nan_guard(NAMED[tname])
+                    with _np2.errstate(all='ignore'):
+                        texts = _np2.array([f_(x_, ctx_) for x_ in xs_], dtype=float).astype(str)
+                    u_, c_ = _np2.unique(texts, return_counts=True)
+                    share, nanp = c_.max() / c_.sum(), float((texts == 'nan').sum()) / len(texts)
+                    if abs(share - 0.8) < 1e-9 or abs(nanp - 0.75) < 1e-9:
+                        continue
+                    keep = len(u_) > 1 and share < 0.8 and nanp < 0.75
+                    if keep != (('x' + tname) in ob_['columns']):
+                        V.violation(f'keep-rule:{key}:{tname}', f'column x{tname} was {"emitted" if not keep else "dropped"} in mini-batch {bi_}; on this batch the named formula gives {len(u_)} distinct values, majority {share:.2f}, NaN {nanp:.2f} -> {"emit" if keep else "drop"}', {'batches': seq, 'preset': preset})
+                V.count(evaluations=len(vault[preset]), nontrivial=len(vault[preset]), traces=1)
     V.coverage['exhaustive'] = True
     return V.finish()
 
